@@ -242,3 +242,11 @@ def funcfl(nrho, drho, nr, dr, eam_potentials, potentials, fp):
     for i in range(nr):
         fp.write(" % 20.16e" % e.electronDensityFunction(i * dr))
         fp.write(WS())
+
+
+# ---- C18 -------------------------------------------------------------------
+def plot_to_file(fileobj, lowx, highx, func, steps):
+    """exactly 'steps' rows at x_i = lowx + i*(highx-lowx)/steps with y_i = f(x_i)"""
+    for i in range(steps):
+        x = lowx + i * (highx - lowx) / steps
+        fileobj.write("{0} {1}\n".format(x, func(x)))
